@@ -40,7 +40,7 @@ _FORMAT_STRING_REGEX = r"""
         (?P<length_modifier>[hlL])?
         (?P<conversion_type>[diouxXeEfFgGcrs%ba])
     |
-        $  # or until the end of the string
+        \Z  # or until the end of the string
     )
 """
 _FLAGS = re.VERBOSE | re.DOTALL
@@ -241,9 +241,6 @@ class PercentFormatString:
         raw_pieces = [match.group("pre_match") for match in matches]
         if len(raw_pieces) == len(specifiers) + 2:
             raw_pieces = raw_pieces[:-1]
-        if pattern.endswith("\n"):
-            # due to a quirk in the re module, the final newline otherwise gets removed
-            raw_pieces[-1] += "\n"
         return cls(
             pattern, is_bytes=False, specifiers=specifiers, raw_pieces=tuple(raw_pieces)
         )
@@ -260,9 +257,6 @@ class PercentFormatString:
         raw_pieces = [match.group("pre_match") for match in matches]
         if len(raw_pieces) == len(specifiers) + 2:
             raw_pieces = raw_pieces[:-1]
-        if pattern.endswith(b"\n"):
-            # due to a quirk in the re module, the final newline otherwise gets removed
-            raw_pieces[-1] += b"\n"
         return cls(
             pattern, is_bytes=True, specifiers=specifiers, raw_pieces=tuple(raw_pieces)
         )
